@@ -3,7 +3,7 @@
    over return_statuses), and with full data every node of the graph has a history whose
    first entry is (tmin, IC[node]).  An IC dict that misses a node of the graph is rejected
    with KeyError before any draw (and before any call of the user's functions). *)
-From EoNV Require Import Prelude Samp Graph ListDict Gillespie Simple Complex C05x SampP.
+From EoNV Require Import Prelude Samp Graph ListDict Gillespie Simple Complex InitChk SampP.
 
 Lemma reach_lifts : forall A (r : result A) a, reach (lifts r) a -> r = Ok a.
 Proof. intros A [x|e] a H; cbn [lifts] in H; inversion H; subst; reflexivity. Qed.
